@@ -64,14 +64,18 @@ theorem release_iff_connect_true (o : Opts) (env : List Ans) (ts : List Bool) (r
   of r and it returned a false value;
 * otherwise the (true) value on-release of role r returned - `True` for the default on-release;
 * False: exactly for IOError, UnsupportedTargetError, KeyboardInterrupt.
-PARTIAL only because of the last case: an exception leaves connect() (`.raised`) exactly in three
+PARTIAL only because of the last case: an exception leaves connect() (`.raised`) exactly in four
 situations, and nothing else can (after the repair of F30 a CommunicationError inside listen() is
-"no target this round"):
+"no target this round"; every CommunicationError of every command `nfc.tag.activate` sends is absorbed):
 * SystemExit, and then the last event is the link loop `llc.run` answering SystemExit (F21, open);
 * TypeError, and then the rdwr on-startup returned a true value that is not iterable;
 * ValueError, and then an argument error: the rdwr option has a single target (whose own error is
   raised, as documented for sense()), an element that is not a RemoteTarget, or the card option has
-  a LocalTarget of unknown technology. -/
+  a LocalTarget of unknown technology;
+* TypeError, and then the last event is the call of `nfc.tag.activate` with a target it cannot
+  handle (`TypeErrTarget`: found by `sense_dep`, i.e. the rdwr option was given an NFC-DEP target and
+  on-discover accepted it; or a Type A answer whose SENS_RES byte 1 claims Type 1 although byte 0
+  does not, so that no RID response exists) - open findings, nothing was sent to the target. -/
 theorem connect_return_table_partial (o : Opts) (env : List Ans) (ts : List Bool) :
     ∃ q, mon (connect o env ts).2.log = some q ∧
       (match (connect o env ts).1 with
@@ -81,7 +85,9 @@ theorem connect_return_table_partial (o : Opts) (env : List Ans) (ts : List Bool
        | .caught e => isCaught e = true
        | .raised e =>
          (e = .type_ ∧ NonIterableStartup o) ∨ (e = .value ∧ OptsV o) ∨
-         (e = .systemExit ∧ (connect o env ts).2.log.getLast? = some (.call .llcRun .sysExit))) := by
+         (e = .systemExit ∧ (connect o env ts).2.log.getLast? = some (.call .llcRun .sysExit)) ∨
+         (e = .type_ ∧ ∃ f, TypeErrTarget f ∧
+           (connect o env ts).2.log.getLast? = some (.call .activate (.found f)))) := by
   obtain ⟨q, hq, h⟩ := connect_spec o env ts
   refine ⟨q, hq, ?_⟩
   cases hc : (connect o env ts).1 with
@@ -89,23 +95,90 @@ theorem connect_return_table_partial (o : Opts) (env : List Ans) (ts : List Bool
   | caught e => rw [hc] at h; exact h
   | raised e => exact connect_raised o env ts e hc
 
-/-- The full table: when the option record has no argument error and the link loop does not raise
-SystemExit during the run, connect() returns - None, False, the object or on-release's value. -/
+/-- The full table: when the option record has no argument error, the link loop does not raise
+SystemExit during the run and `nfc.tag.activate` is not handed a target it cannot handle, connect()
+returns - None, False, the object or on-release's value. -/
 theorem connect_return_table (o : Opts) (env : List Ans) (ts : List Bool)
     (h1 : ¬ NonIterableStartup o) (h2 : ¬ OptsV o)
-    (h3 : (connect o env ts).2.log.getLast? ≠ some (.call .llcRun .sysExit)) :
+    (h3 : (connect o env ts).2.log.getLast? ≠ some (.call .llcRun .sysExit))
+    (h4 : ∀ f, TypeErrTarget f → (connect o env ts).2.log.getLast? ≠ some (.call .activate (.found f))) :
     ∀ e, (connect o env ts).1 ≠ .raised e := by
   intro e he
-  rcases connect_raised o env ts e he with ⟨_, h⟩ | ⟨_, h⟩ | ⟨_, h⟩
+  rcases connect_raised o env ts e he with ⟨_, h⟩ | ⟨_, h⟩ | ⟨_, h⟩ | ⟨_, f, hf, h⟩
   · exact h1 h
   · exact h2 h
   · exact h3 h
+  · exact h4 f hf h
+
+/-! ## the activation step: `nfc.tag.activate` inside `_rdwr_connect` -/
+
+/-- `nfc.tag.activate(clf, target)` on the target `sense()` just returned (`HasT s`: the frontend
+holds a remote target), for EVERY target data `f` (technology, SENS_RES, SEL_RES, SDD_RES variant,
+RID) and EVERY script - whatever the commands of the type specific activation are answered
+(RATS / ATTRIB of a Type 4 Tag, AUTHENTICATE and GET_VERSION of the NXP Type 2 Tag detection, the
+nested `sense()` calls that re-select the tag; data, TimeoutError, TransmissionError, ProtocolError,
+BrokenLinkError at the first or at any later command):
+* the history grows by driver/collaborator calls only (no callback, no terminate poll);
+* no CommunicationError ever leaves it - a failed activation is "no tag", connect() tries again;
+* what leaves it is a device error (IOError, KeyboardInterrupt, or the UnsupportedTargetError of the
+  nested single-target `sense()`), all of which end connect() with False - or the TypeError for a
+  target it cannot handle, raised before anything was sent (the `act` event is the last one). -/
+theorem activate_absorbs_communication_errors (f : Found) (s : St) (h : HasT s) :
+    NExt s (tagActivate f s).2 ∧
+    ∀ e, (tagActivate f s).1 = .error e →
+      isCommErr e = false ∧
+      (e = .io 5 ∨ e = .keyboardInterrupt ∨ e = .unsupportedTarget ∨
+        (e = .type_ ∧ TypeErrTarget f ∧ (tagActivate f s).2.log = s.log ++ [.call .activate (.found f)])) := by
+  obtain ⟨hn, he⟩ := tagActivate_act f s h
+  refine ⟨hn, fun e h' => ?_⟩
+  rcases he e h' with hd | ⟨h1, h2, h3⟩
+  · rcases hd with hd | hd | hd <;> subst hd
+    · exact ⟨rfl, Or.inl rfl⟩
+    · exact ⟨rfl, Or.inr (Or.inl rfl)⟩
+    · exact ⟨rfl, Or.inr (Or.inr (Or.inl rfl))⟩
+  · subst h1
+    exact ⟨rfl, Or.inr (Or.inr (Or.inr ⟨rfl, h2, h3⟩))⟩
+
+/-- the target `connect()` hands to `nfc.tag.activate` is the one the frontend holds: the commands
+of the activation go to the target this round's `sense()` returned, never to an earlier one -/
+theorem activate_gets_current_target (tl : List TgtSpec) (iters : Int) (s s1 : St) (x : Nat × Found)
+    (h : sense tl iters s = (.ok (some x), s1)) : s1.target = .remote x.1 ∧ HasT s1 :=
+  ⟨sense_some_target tl iters s s1 x h, x.1, sense_some_target tl iters s s1 x h⟩
+
+def good' : Ans := .found ⟨[0x44, 0x00], [], false, 20, 0, 0⟩
+def rdwr4a : Opts :=
+  ⟨some ⟨some (.proper, 0), [.a 0], .ret .true_, .ret .false_, .ret .true_, 1, true⟩, none, none⟩
+/-- a Type 4A Tag (SEL_RES 20h) -/
+def t4a : Ans := .found { sens := [0x44, 0x03], rid := [], p2p := false, atrLen := 0, var := 1 }
+def ats : Ans := .found { sens := [0x05, 0x78, 0x80, 0x70, 0x02], rid := [], p2p := false, atrLen := 0 }
+
+/-- the RATS response of a Type 4A Tag is garbled once (TransmissionError / ProtocolError /
+BrokenLinkError / TimeoutError): no on-connect for it, the next round connects the tag and connect()
+returns the Tag object because on-connect returned a false value -/
+example : (connect rdwr4a [.nothing, t4a, .transErr, .nothing, t4a, ats] [false, false, true]).1 = .ret (.obj .rdwr) := by decide
+example : (connect rdwr4a [.nothing, t4a, .protoErr, .nothing, t4a, ats] [false, false, true]).1 = .ret (.obj .rdwr) := by decide
+example : (connect rdwr4a [.nothing, t4a, .brokenLink, .nothing, t4a, ats] [false, false, true]).1 = .ret (.obj .rdwr) := by decide
+example : (connect rdwr4a [.nothing, t4a, .commErr, .nothing, t4a, ats] [false, false, true]).1 = .ret (.obj .rdwr) := by decide
+example : (mon (connect rdwr4a [.nothing, t4a, .transErr, .nothing, t4a, ats] [false, false, true]).2.log)
+    = some (.finObj .rdwr) := by decide
+/-- an NXP Type 2 Tag (SEL_RES 00h, NFCID1 04..): AUTHENTICATE times out, the tag is re-selected,
+GET_VERSION fails with a ProtocolError: no tag this round -/
+example : (tagActivate { sens := [0x44, 0x00], rid := [], p2p := false, atrLen := 0, tech := 1 }
+    { env := [.commErr, .nothing, good', .protoErr], n := 3, log := [], target := .remote 2 }).1 = .ok none := by decide
+example : HasT { env := [], n := 3, log := [], target := .remote 2 } := ⟨2, rfl⟩
+
+/-- the full statement ("nfc.tag.activate never raises anything but a device error") is false on the
+current code: an NFC-DEP target given to the rdwr option and accepted by on-discover -/
+def rdwrDep : Opts :=
+  ⟨some ⟨some (.proper, 0), [.dep 16, .b], .ret .true_, .ret .true_, .ret .true_, 1, true⟩, none, none⟩
+theorem activate_typeerror_counterexample :
+    (connect rdwrDep [.nothing, good'] [false, true]).1 = .raised .type_ := by decide
+example : TypeErrTarget { sens := [0x44, 0x00], rid := [], p2p := false, atrLen := 20, tech := 4 } := by decide
 
 /-- the full statement ("connect() never raises") is false on the current code -/
 def ConnectNeverRaises : Prop := ∀ o env ts e, (connect o env ts).1 ≠ .raised e
 
 def llcpOnly : Opts := ⟨none, some ⟨none, .absent, .absent, .initiator⟩, none⟩
-def good' : Ans := .found ⟨[0x44, 0x00], [], false, 20⟩
 def cardDep : Opts := ⟨none, none, some ⟨some (.proper, 0), .dep, .absent, .absent, .absent⟩⟩
 
 /-- F21: SystemExit from the link loop leaves connect() -/
@@ -138,7 +211,12 @@ theorem connect_ends_after_terminate (o : Opts) (env : List Ans) (ts : List Bool
   connect_prompt o env ts hm
 
 example : Mono [false, false, true, true] := by simp [Mono, AllTrue]
-example : after (connect cardDep [.nothing, good', good', good', good'] [false, false, true]).2.log = some 1 := by decide
+def cardF : Opts := ⟨none, none, some ⟨some (.proper, 0), .f, .absent, .absent, .absent⟩⟩
+example : after (connect cardF [.nothing, good', good', good', good'] [false, false, true]).2.log = some 1 := by decide
+/-- card emulation with the real `nfc.tag.emulate`: only an activation that captured a Type 3 Tag
+command is emulated (the others are "nothing this round") -/
+example : (connect cardF [.nothing, good', good'] [false, false, true]).1 = .ret (.val .card .true_) := by decide
+example : (connect cardDep [.nothing, good', good'] [false, true]).1 = .ret .none := by decide
 
 /-! ## sense() / listen() / exchange() -/
 
@@ -235,11 +313,44 @@ theorem exchange_no_stale_target (s : St) :
     obtain ⟨_, _, h3, h4⟩ := listen_spec t s
     exact ⟨h3, h4⟩
 
+/-- Target hygiene over whole histories: after ANY sequence `ops` of sense / listen / exchange calls
+(whatever they found, however they failed), one more `sense()` or `listen()` leaves the frontend with
+exactly the target this last call returned - created by an answer consumed during this call - or
+with none; one more `exchange()` leaves the target as it is and drives the device only with it. -/
+theorem history_no_stale_target (ops : List Op) (s : St) :
+    let s0 := runOps ops s
+    (∀ tl iters, tl.any (· == .notTarget) = false →
+      (∀ x, (sense tl iters s0).1 = .ok (some x) →
+        (runOps (ops ++ [.sense tl iters]) s).target = .remote x.1 ∧ s0.n ≤ x.1) ∧
+      ((∀ x, (sense tl iters s0).1 ≠ .ok (some x)) → (runOps (ops ++ [.sense tl iters]) s).target = .none)) ∧
+    (∀ t,
+      (∀ x, (listen t s0).1 = .ok (some x) →
+        (runOps (ops ++ [.listen t]) s).target = .loc x.1 ∧ s0.n ≤ x.1) ∧
+      ((∀ x, (listen t s0).1 ≠ .ok (some x)) → (runOps (ops ++ [.listen t]) s).target = .none)) ∧
+    (runOps (ops ++ [.exchange]) s).target = s0.target := by
+  have happ : ∀ op, runOps (ops ++ [op]) s = runOp op (runOps ops s) := by
+    intro op; simp [runOps, List.foldl_append]
+  obtain ⟨h1, h2, h3⟩ := exchange_no_stale_target (runOps ops s)
+  refine ⟨?_, ?_, ?_⟩
+  · intro tl iters hnt
+    obtain ⟨ha, hb⟩ := h1 tl iters hnt
+    rw [happ]
+    exact ⟨fun x hx => ⟨(ha x hx).1, (ha x hx).2.1⟩, hb⟩
+  · intro t
+    obtain ⟨ha, hb⟩ := h2 t
+    rw [happ]
+    exact ⟨fun x hx => ⟨(ha x hx).1, (ha x hx).2.1⟩, hb⟩
+  · rw [happ]; exact h3.1
+
+/-- sense finds a tag, listen fails with an exception of the device, exchange: no driver call -/
+example : (runOps [.sense [.a 0] 1, .listen .a, .exchange] (St.init [.nothing, good', .nothing, .unsupported, good'])).target = .none := by decide
+example : (runOps [.sense [.a 0] 1, .listen .a, .exchange] (St.init [.nothing, good', .nothing, .unsupported, good'])).log.length = 4 := by decide
+
 /-! ## Non-vacuity: concrete runs -/
 
 def rdwrAll : Opts :=
   ⟨some ⟨some (.proper, 0), [.a 0, .b], .ret .true_, .ret .true_, .ret .true_, 1, true⟩, none, none⟩
-def good : Ans := .found ⟨[0x44, 0x00], [], false, 0⟩
+def good : Ans := .found ⟨[0x44, 0x00], [], false, 0, 0, 0⟩
 
 /-- a tag is found by the second target, stays for one presence check, then terminate() turns true -/
 example : (connect rdwrAll [.nothing, .nothing, good, good, .nothing, good] [false, false, true]).1
@@ -252,7 +363,7 @@ example : (connect rdwrAll [.nothing, .nothing, good, good, .nothing, .ioError] 
 example : (mon (connect rdwrAll [.nothing, .nothing, good, good, .nothing, .ioError] [false, false, true]).2.log)
     = some (.conn .rdwr) := by decide
 /-- sense: the first target is invalid (3 byte sel_req) and is ignored, the second finds a tag -/
-example : (sense [.a 3, .b] 2 (St.init [.nothing, good])).1 = .ok (some (1, ⟨[0x44, 0x00], [], false, 0⟩)) := by decide
+example : (sense [.a 3, .b] 2 (St.init [.nothing, good])).1 = .ok (some (1, ⟨[0x44, 0x00], [], false, 0, 0, 2⟩)) := by decide
 example : (sense [.a 3] 2 (St.init [.nothing, good])).1 = .error .value := by decide
 example : (sense [.unknown, .f] 1 (St.init [])).1 = .ok none := by decide
 
